@@ -427,7 +427,7 @@ def sound_cfg(case):
     those containers into leaves are replaced (a custom node whose unflatten needs structured
     children is outside 'leaf-typed replacement' / identity preservation)."""
     cfg = case['cfg']
-    if cfg['pred'] in ('tuple2', 'dict_has_a', 'anydict_has_a') and any(
+    if cfg['pred'] in ('tuple2', 'dict_has_a', 'anydict_has_a', 'holds_one_int', 'marker3') and any(
             contains_tag(case[k], ('partial',)) for k in case if k != 'cfg'):
         cfg = dict(cfg, pred='none')
     return cfg
